@@ -276,6 +276,10 @@ FullOps ==
         [a |-> "SetMedium", s |-> 1, d |-> [x \in RxU |-> IF x = "EX_m3" THEN 5 ELSE Missing]],
         [a |-> "DetachedSetBounds", s |-> 1, r |-> "r1", lo |-> 0, hi |-> 5],
         [a |-> "ReAddDetached", s |-> 1, r |-> "r1"],
+        [a |-> "RxnIAdd", s |-> 1, r |-> "r1", q |-> "r1"],
+        [a |-> "RxnISub", s |-> 1, r |-> "r1", q |-> "r2"],
+        [a |-> "RemoveReactions", s |-> 1, rs |-> <<"r3">>, orphans |-> FALSE, form |-> 1],
+        [a |-> "SetObjective", s |-> 1, form |-> 0, d |-> [x \in RxU |-> IF x = "r2" THEN 1 ELSE 0]],
         [a |-> "RxnAddMetabolites", s |-> 1, r |-> "r1", d |-> D1("m1", -2), combine |-> FALSE, form |-> 2],
         [a |-> "Repair", s |-> 1],
         [a |-> "Enter", s |-> 1], [a |-> "Exit", s |-> 1]}
